@@ -419,6 +419,6 @@ def run(tier, seed):
 MANIFEST = {
     "engine": "G",
     "technique": "stateless model checking of the real ServermapUpdater / Retrieve / Publish over every assignment of held version / unavailable / replaying-older-share to the servers and every placement of the shares over the permuted server list, each under all delivery orders within a deviation bound; judged from the answers the client really received (independent share parser) and the call log",
-    "text": "One writer publishes h versions of a 2-of-4 file on real storage servers; the share files after each publish are captured and every mixture of stale, current, missing, unavailable and replaying servers is rebuilt from them. A read must return the highest-seqnum version for which the answered servers supplied k distinct shares and must not stop with unqueried live servers while it has seen a newer version it cannot recover; a successful publish must carry a seqnum above everything its survey was answered with.",
+    "text": "One writer publishes h versions of a 2-of-4 file on real storage servers; the share files after each publish are captured and every mixture of stale, current, missing, unavailable and replaying servers is rebuilt from them. A read must return the highest-seqnum version for which the answered servers supplied k distinct shares and must not stop with unqueried live servers while it has seen a newer version it cannot recover; a successful publish must carry a seqnum above everything its survey was answered with. Each family is also run with every answer that is deliverable at the start of a reactor turn delivered in that turn; reads are judged on the answers held when the servermap update concluded.",
     "note": "Bounds (h, S, d) per family in evidence; histories are linear, staleness is produced by restoring captured share files; fresh readers (guess k=3, query 6 servers) and long-lived readers (know k, query 4) are both used because only the latter can stop before every server of a 9..10-server grid was asked.",
 }
